@@ -91,8 +91,8 @@ Section Edge.
   Proof. intros Ha Hb Hz. unfold binop_eval. now rewrite Ha, Hb, Hz. Qed.
 
   (* an element is only ever produced for an index inside the array *)
-  Theorem index_is_checked ev ex fns s a i v s' :
-    eval_step O fns ev ex s (EIndex a i) = Ok (v, s') ->
+  Theorem index_is_checked ev ex fns cls depth s a i v s' :
+    eval_step O fns cls depth ev ex s (EIndex a i) = Ok (v, s') ->
     exists va s1 vi t l k, ev s a = Ok (va, s1) /\ ev s1 i = Ok (vi, s') /\ va = VArr t l /\ index_of vi = Some k /\
                            0 <= k < Z.of_nat (List.length l) /\ nth_error l (Z.to_nat k) = Some v.
   Proof.
